@@ -630,6 +630,8 @@ class PathResult:
 def run_path(fn, params, prefix, model, stats, known_open=(), keep_obs=False, seed=0):
     """Execute one path of fn(ctx, params). Returns (PathResult, pending alternatives)."""
     from . import core
+    from . import procstate
+    procstate.restore()          # process-wide objects of the package start every path as a fresh process has them
     ctx = SymCtx(prefix, model, stats, known_open, seed)
     res = PathResult()
     core.CUR = ctx
